@@ -35,6 +35,7 @@ type Config struct {
 	TimeLimit    time.Duration
 	Stubs        map[string]string
 	MapPerm      bool
+	MapDev       int // max number of permuted map ranges per path (0 = unlimited)
 	Domain       bool
 }
 
